@@ -1,5 +1,8 @@
-//@ tu: libxcm/tp/tcp/xcm_tp_tcp.c
-//@ loops: tcp.loops
+//@ variant: tcp TU=libxcm/tp/tcp/xcm_tp_tcp.c DEFS=-DXF_TCP
+//@ variant: tls TU=libxcm/tp/tls/xcm_tp_tls.c DEFS=-DXF_TLS
+//@ tu: $TU
+//@ defs: $DEFS
+//@ loops: framing.loops
 //@ enforce: try_finish_send
 //@ replace: xcm_tp_socket_send
 //@ props: C01 C03 C17 C07
@@ -7,6 +10,7 @@
 #include "_unit.h"
 void harness(void)
 {
+    xv_ghost_havoc();
     struct xcm_socket *s;
     int rv = try_finish_send(s);
     if (rv == 0) XV_CANARY("rv0");
